@@ -13,7 +13,7 @@ ID = "C08"
 LEVEL = "fault_enumeration"
 ENGINE = "simio"
 TIERS = {
-    "quick": {"runs": 176, "budget_s": 75, "chunk": 1, "positions": 14},
+    "quick": {"runs": 320, "budget_s": 75, "chunk": 1, "positions": 14},
     "thorough": {"runs": 4000, "budget_s": 1500, "chunk": 1, "positions": "all"},
 }
 RULE = ("one evaluation = one workload (object-graph versions x target precondition x store/mode/"
@@ -112,7 +112,7 @@ def gen(rng: Rng, tier, i):
     for v in range(nver):
         first = v == 0
         mode = "w" if (first and pre == "absent" and rng.chance(0.7)) else rng.weighted(
-            [("o", 5), ("w", 2)])
+            [("o", 5), ("w", 2)] if (pre == "absent" or not first) else [("o", 4), ("w", 4)])
         steps.append({"op": "save", "v": v, "mode": mode,
                       "level": rng.pick([None, 0, 1, 4, 4, 9]),
                       "path_kind": rng.pick(["str", "Path", "str", "Path", "rel", "relPath"])})
